@@ -65,13 +65,13 @@ pub fn check_identity(text: &str) -> Result<bool, String> {
 ///                       has a top-level string literal or escaped identifier directly followed by trivia)
 pub fn scan_class(text: &str) -> (bool, bool) {
     let b: Vec<char> = text.chars().collect(); let mut i = 0; let mut directive = false; let mut tainted = false;
-    let is_triv = |j: usize| j < b.len() && (b[j] == ' ' || b[j] == '\t' || b[j] == '\r' || b[j] == '\n' || b[j] == '`' || (b[j] == '/' && j + 1 < b.len() && (b[j + 1] == '/' || b[j + 1] == '*')));
+    let is_triv = |j: usize| j < b.len() && (b[j] == ' ' || b[j] == '\t' || b[j] == '\r' || b[j] == '\n' || b[j] == '\x0c' || b[j] == '`' || (b[j] == '/' && j + 1 < b.len() && (b[j + 1] == '/' || b[j + 1] == '*')));
     while i < b.len() {
         let c = b[i];
         if c == '/' && i + 1 < b.len() && b[i + 1] == '/' { while i < b.len() && b[i] != '\n' { i += 1; } }
         else if c == '/' && i + 1 < b.len() && b[i + 1] == '*' { i += 2; loop { if i + 1 >= b.len() { i = b.len(); break; } if b[i] == '*' && b[i + 1] == '/' { i += 2; break; } i += 1; } }
         else if c == '"' { i += 1; loop { if i >= b.len() { break; } if b[i] == '\\' { i += 2; continue; } if b[i] == '"' { i += 1; break; } i += 1; } if is_triv(i) { tainted = true; } }
-        else if c == '\\' { i += 1; while i < b.len() && !(b[i] == ' ' || b[i] == '\t' || b[i] == '\r' || b[i] == '\n') { i += 1; } if is_triv(i) { tainted = true; } }
+        else if c == '\\' { i += 1; while i < b.len() && !(b[i] == ' ' || b[i] == '\t' || b[i] == '\r' || b[i] == '\n' || b[i] == '\x0c') { i += 1; } if is_triv(i) { tainted = true; } }
         else if c == '`' { directive = true; i += 1; }
         else { i += 1; }
     }
@@ -86,7 +86,7 @@ pub fn lexically_broken(text: &str) -> bool {
         if c == '/' && i + 1 < b.len() && b[i + 1] == '/' { while i < b.len() && b[i] != '\n' { i += 1; } }
         else if c == '/' && i + 1 < b.len() && b[i + 1] == '*' { i += 2; loop { if i + 1 >= b.len() { return true; } if b[i] == '*' && b[i + 1] == '/' { i += 2; break; } i += 1; } }
         else if c == '"' { i += 1; loop { if i >= b.len() { return true; } if b[i] == '\\' { i += 2; continue; } if b[i] == '"' { i += 1; break; } i += 1; } }
-        else if c == '\\' { if i + 1 >= b.len() || b[i + 1] == ' ' || b[i + 1] == '\t' || b[i + 1] == '\r' || b[i + 1] == '\n' { return true; } while i < b.len() && !(b[i] == ' ' || b[i] == '\t' || b[i] == '\r' || b[i] == '\n') { i += 1; } }
+        else if c == '\\' { if i + 1 >= b.len() || b[i + 1] == ' ' || b[i + 1] == '\t' || b[i + 1] == '\r' || b[i + 1] == '\n' || b[i + 1] == '\x0c' { return true; } while i < b.len() && !(b[i] == ' ' || b[i] == '\t' || b[i] == '\r' || b[i] == '\n' || b[i] == '\x0c') { i += 1; } }
         else { i += 1; }
     }
     false
@@ -103,8 +103,11 @@ pub fn main(args: &[String]) {
         let (text, _) = gen_text(&mut rng, stream == 1, stream == 3);
         let (has_dir, tainted) = scan_class(&text);
         if has_dir { rep.count("skipped-has-directive"); continue; }
-        rep.count(["clean", "tainted", "clean", "malformed"][stream]);
-        if stream == 3 {
+        // pieces can glue into an unterminated construct ("/" + "/* c */" is a line comment that hides the closing "*/"):
+        // whatever the independent scanner finds broken is judged as the malformed stream
+        let malformed = stream == 3 || lexically_broken(&text);
+        rep.count(if malformed { "malformed" } else { ["clean", "tainted", "clean", "malformed"][stream] });
+        if malformed {
             let d = no_defines(); let inc = no_includes();
             let r = std::panic::catch_unwind(|| preprocess_str(&text, PathBuf::from("dir/f.sv"), &d, &inc, false, false, 0, 0));
             rep.case(text.as_bytes(), false);
